@@ -49,7 +49,11 @@ struct RayCtx {
   const std::vector< double > *kap;     // opacity per reference cell id
   const std::vector< size_t > *real_of; // reference cell id -> real cell index (nullptr: identical)
   size_t ncells_real;
-  std::function< void(size_t, double *, double *) > cellbox; // real cell index -> reported box
+  std::function< void(size_t, double *, double *) > cellbox; // real cell index -> reported box (nullptr: no box)
+  // optional replacement of the box marcher (Voronoi cells) and an absolute
+  // tolerance per step (deliberate epsilon displacements of the code under test)
+  std::function< MarchResult(const double *, const double *, Q, Q) > marcher;
+  double step_abs_tol = 0.;
 };
 
 struct RayCase {
@@ -84,7 +88,7 @@ static bool run_ray(const RayCtx &cx, GridT &grid, const RayCase &rc, verif::Res
   // tolerance on path parameters: K eps (steps+2) coordmax / min|dir_i|
   const double K = 2.;
   const Q tie_tau = 64. * DBL_EPSILON * (rc.target < 1e200 ? rc.target : 0.) + 64. * DBL_EPSILON * kmax * coordmax;
-  const MarchResult M = march(G, rc.p, rc.dir, kfun, rc.target, tie_tau);
+  const MarchResult M = cx.marcher ? cx.marcher(rc.p, rc.dir, rc.target, tie_tau) : march(G, rc.p, rc.dir, kfun, rc.target, tie_tau);
   if (M.capped) {
     R.cap("reference marcher step cap hit: " + rep);
     return true;
@@ -92,14 +96,15 @@ static bool run_ray(const RayCtx &cx, GridT &grid, const RayCase &rc, verif::Res
   // geometric tolerance on ray parameters: every step rounds coordinates of
   // size coordmax divided by a direction component, and the running sums
   // (photon position, deposited path) round at the size of the total path
-  const Q tol_t = K * DBL_EPSILON * (M.steps + 2) * (coordmax / M.min_abs_dir + M.total);
+  const Q tol_t = K * DBL_EPSILON * (M.steps + 2) * (coordmax / M.min_abs_dir + M.total) + (M.steps + 2) * (Q)cx.step_abs_tol;
   // optical depth: the running difference target - sum(tau_i) rounds at the
   // size of the depth used so far in every step
   const Q tol_tau = kmax * tol_t + K * DBL_EPSILON * (M.steps + 2) * M.tau;
   // an absorption point is the optical depth error divided by the opacity
   const Q tol_abs = (M.absorbed && kmin < DBL_MAX) ? tol_tau / kmin : 0.L;
   const bool wrapped = M.wraps[0] || M.wraps[1] || M.wraps[2];
-  const std::string kk = std::string(M.wrap_into_finer ? ":periodic-wrap-into-finer-cells" : (wrapped ? ":periodic-wrap" : "")) + cls;
+  const std::string kk = std::string(M.near_edge ? ":ray-through-a-cell-edge-or-vertex" : "") +
+                         std::string(M.wrap_into_finer ? ":periodic-wrap-into-finer-cells" : (wrapped ? ":periodic-wrap" : "")) + cls;
   ++st.rays;
   if (wrapped)
     ++st.rays_wrap;
@@ -131,9 +136,14 @@ static bool run_ray(const RayCtx &cx, GridT &grid, const RayCase &rc, verif::Res
   volatile bool done = false;
   {
     TRAP_BEGIN(PFX + ":abort:interact" + kk, "abort in interact: " + rep, rep)
-    DensityGrid::iterator it = grid.interact(ph, rc.target);
-    ret = it.get_index();
-    done = true;
+    try {
+      DensityGrid::iterator it = grid.interact(ph, rc.target);
+      ret = it.get_index();
+      done = true;
+    } catch (const std::exception &e) {
+      c16_jmp = nullptr;
+      R.violation(PFX + ":exception:interact" + kk, std::string("interact throws ") + e.what() + ": " + rep, rep);
+    }
     TRAP_END
   }
   if (!done)
@@ -215,7 +225,7 @@ static bool run_ray(const RayCtx &cx, GridT &grid, const RayCase &rc, verif::Res
       R.violation(PFX + ":optical-depth" + kk, fmt("sum of opacity x deposited path = %.17Lg, reference %.17Lg (target %.17g): ", taureal, tau_expect, rc.target) + rep, rep);
     }
     // the cell reported for an absorbed photon holds its final position
-    if (absorbed && good) {
+    if (absorbed && good && cx.cellbox) {
       double blo[3], bhi[3];
       cx.cellbox(ret, blo, bhi);
       for (int d = 0; d < 3; ++d)
